@@ -43,7 +43,10 @@ func (b PathVariablesBuilder) Build() (*PathVariables, error) {
 		}
 	}
 
-	s := b.objectBuilder.Build()
+	s, err := b.objectBuilder.Build()
+	if err != nil {
+		return nil, err
+	}
 
 	es := newExchangeJSightSchema(s)
 	es.disableExchangeExample = true
